@@ -1540,6 +1540,14 @@ func (pc *PartitionContext) removeAllocation(release *si.AllocationRelease) ([]*
 				zap.String("appID", appID),
 				zap.String("allocationKey", alloc.GetAllocationKey()),
 				zap.String("nodeID", alloc.GetNodeID()))
+			// the node was removed while this release was in progress: the node removal skipped the allocation
+			// because the application no longer listed it, so the queue usage must be given back here
+			if release.TerminationType != si.TerminationType_PLACEHOLDER_REPLACED {
+				total.AddTo(alloc.GetAllocatedResource())
+				if alloc.IsPreempted() {
+					totalPreempting.AddTo(alloc.GetAllocatedResource())
+				}
+			}
 			continue
 		}
 		// the replacement was unlinked while the shim was releasing the placeholder (the node of the replacement
